@@ -808,6 +808,24 @@ func genC04ab(c *Ctx) {
 			c.Emit("slegalmem " + encPos(p) + " " + encMove(m))
 		}
 	}
+	// the bot's pattern: one engine, a context per move; the first move's context ends inside the second search
+	// (at its very first leaves, in the middle, near the end)
+	n = c.Scale(60, 4000)
+	for k := 0; k < n; k++ {
+		size := 3 + r.Intn(3)
+		s := latticeCfg(c, size)
+		s.me = 0
+		if s.depth > 3 {
+			s.depth = 3
+		}
+		line := liveLine(r, size)
+		if len(line) < 3 {
+			continue
+		}
+		i := r.Intn(len(line) - 2)
+		kk := []int{1, 1, 2, 3, 1 + r.Intn(40), 1 + r.Intn(400)}[r.Intn(6)]
+		c.Count("gmprev=" + clip(c.Emit(fmt.Sprintf("gmprev %s %s %s %d", s.tok(), encPos(line[i]), encPos(line[i+2]), kk)), 16))
+	}
 	// stale hints: one engine reused across unrelated positions of the same size
 	n = c.Scale(60, 6000)
 	for k := 0; k < n; k++ {
